@@ -73,6 +73,8 @@ struct Args {
     runs: Option<u64>,
     workers: usize,
     evidence: bool,
+    /// set by `supervise` only: (run index, class, detail) of a run that killed the child process
+    crash: Option<(u64, String, String)>,
 }
 
 fn seed() -> u64 {
@@ -96,6 +98,9 @@ fn drive<E: Engine>(e: &E, a: &Args, digest_only: bool) -> i32 {
         return engine::replay(e, r);
     }
     let o = Opts { tier: a.tier, seed: seed(), runs: a.runs, workers: a.workers, write_evidence: a.evidence && !digest_only };
+    if let Some((run, class, detail)) = &a.crash {
+        return engine::crash_report(e, &o, *run, class, detail);
+    }
     println!("SEED {}", o.seed);
     let out = engine::run_engine(e, &o);
     if digest_only {
@@ -149,10 +154,88 @@ fn main() {
     if digest_only {
         peek.remove(0);
     }
-    let a = parse_vec(peek);
+    let mut a = parse_vec(peek.clone());
+    // The engines call the code under test in this process; a stack overflow or an allocation abort there cannot be
+    // caught. So the batch runs in a child of this process (C16 has its own sandbox), and if the child is killed the
+    // batch is re-run single-threaded with a run trace to find the run, which is then reported as a violation.
+    if a.id != "C16" && std::env::var("VERIF_CHILD").is_err() {
+        std::process::exit(supervise(&mut a, &peek, digest_only));
+    }
     // a panic outside a guarded call is a harness error (exit 2), never a verdict
     let code = std::panic::catch_unwind(|| dispatch(&a, digest_only)).unwrap_or(2);
     std::process::exit(code);
+}
+
+fn classify(stderr: &str, status: &std::process::ExitStatus) -> (String, String) {
+    use std::os::unix::process::ExitStatusExt;
+    if stderr.contains("overflowed its stack") {
+        ("stack-overflow".into(), "the code under test overflowed the stack of the harness process".into())
+    } else if let Some(l) = stderr.lines().find(|l| l.contains("memory allocation of")) {
+        ("abort-alloc".into(), l.trim().to_string())
+    } else {
+        ("abort".into(), format!("the harness process died: signal {:?}, exit code {:?}", status.signal(), status.code()))
+    }
+}
+
+fn supervise(a: &mut Args, argv: &[String], digest_only: bool) -> i32 {
+    use std::process::{Command, Stdio};
+    let exe = std::env::current_exe().expect("current_exe");
+    let mut full: Vec<String> = vec![];
+    if digest_only {
+        full.push("digest".into());
+    }
+    full.extend(argv.iter().cloned());
+    let status = Command::new(&exe).args(&full).env("VERIF_CHILD", "1").status().expect("spawn");
+    if let Some(c) = status.code() {
+        if c != 134 {
+            return c;
+        }
+    }
+    // the child was killed
+    let shm = if std::path::Path::new("/dev/shm").is_dir() { std::path::PathBuf::from("/dev/shm") } else { std::env::temp_dir() };
+    let trace = shm.join(format!("verif-trace-{}", std::process::id()));
+    let errf = shm.join(format!("verif-trace-{}.err", std::process::id()));
+    let _ = std::fs::write(&trace, u64::MAX.to_le_bytes());
+    if let Some(r) = &a.replay {
+        // a replayed plan that kills the process reproduces a process-died violation
+        let st = Command::new(&exe).args(&full).env("VERIF_CHILD", "1").stdout(Stdio::null()).stderr(Stdio::from(std::fs::File::create(&errf).expect("err file"))).status().expect("spawn");
+        let err = std::fs::read_to_string(&errf).unwrap_or_default();
+        let _ = std::fs::remove_file(&errf);
+        let _ = std::fs::remove_file(&trace);
+        let (class, detail) = classify(&err, &st);
+        eprintln!("  T? :: {class} :: process-died :: {detail}");
+        println!("VIOLATION property={} replay={r}", a.id);
+        return 1;
+    }
+    eprintln!("note: the code under test killed the harness process; re-running the batch single-threaded to find the run");
+    let mut traced = full.clone();
+    traced.push("--workers".into());
+    traced.push("1".into());
+    traced.push("--no-evidence".into());
+    let st = Command::new(&exe)
+        .args(&traced)
+        .env("VERIF_CHILD", "1")
+        .env("VERIF_TRACE", &trace)
+        .stdout(Stdio::null())
+        .stderr(Stdio::from(std::fs::File::create(&errf).expect("err file")))
+        .status()
+        .expect("spawn");
+    let err = std::fs::read_to_string(&errf).unwrap_or_default();
+    let run = std::fs::read(&trace).ok().filter(|b| b.len() >= 8).map(|b| u64::from_le_bytes(b[..8].try_into().unwrap()));
+    let _ = std::fs::remove_file(&errf);
+    let _ = std::fs::remove_file(&trace);
+    if st.success() || st.code() == Some(1) || st.code() == Some(2) {
+        eprintln!("harness error: the batch killed its process once but not when re-run single-threaded");
+        return 2;
+    }
+    let Some(run) = run.filter(|r| *r != u64::MAX) else {
+        eprintln!("harness error: the process died before its first run: {}", err.lines().last().unwrap_or(""));
+        return 2;
+    };
+    let (class, detail) = classify(&err, &st);
+    a.crash = Some((run, class, detail));
+    println!("SEED {}", seed());
+    dispatch(a, digest_only)
 }
 
 fn parse_vec(v: Vec<String>) -> Args {
@@ -182,6 +265,6 @@ fn parse_vec(v: Vec<String>) -> Args {
             _ => usage(),
         }
     }
-    Args { id, tier, replay, runs, workers, evidence }
+    Args { id, tier, replay, runs, workers, evidence, crash: None }
 }
 
